@@ -177,6 +177,27 @@ def run(rep, tier, props):
             else:
                 for o in oks:
                     _emit(rep, dict(sig='C11:infeasible-integer-program-solved:%s:%s' % (o['iface'], cls), prop='C11', what='TLC: no feasible point; interface reports %g' % o['objval'], **detail), props)
+    # ---- MILPs with a weak LP relaxation (number partitioning, 13 binaries): every interface incl. ECOS' branch-and-bound
+    wjobs = [dict(tid=k, a=[rng.randint(20, 99) for _ in range(13)], ifaces=['def', 'ort', 'grb', 'eco']) for k in range(3 if tier == 'quick' else 12)]
+    wres = core.pmap('harness.replay_solveriface', 'replay_weak_relaxation', wjobs, chunksize=1)
+    bad = core.machinery_failures(wres)
+    if bad:
+        raise tlc.MachineryError('replay_weak_relaxation failed: %s\n%s' % (bad[0]['machinery_error'], bad[0].get('tb', '')))
+    stats['weak_relaxation_runs'] = 0
+    for job, r in zip(wjobs, wres):
+        for run_ in r['runs']:
+            rep.count(key=('IW', tuple(job['a']), run_['iface']))
+            stats['weak_relaxation_runs'] += 1
+            detail = dict(weights=job['a'], brute_force_optimum=r['brute'], run=run_)
+            if run_['status'] == 'raised':
+                _emit(rep, dict(sig='C11:interface-raised:%s:milp:weak-relaxation' % run_['iface'], prop='C11', what='solve() raised %s' % run_['exc'], **detail), props)
+            elif run_['status'] == 'fail':
+                _emit(rep, dict(sig='C11:feasible-integer-program-not-solved:%s:milp:weak-relaxation' % run_['iface'], prop='C11',
+                                what='brute-force optimum %g, interface reports no solution (%s)' % (r['brute'], run_.get('solver_status')), **detail), props)
+            elif abs(run_['objval'] - r['brute']) > 1e-5 or abs(run_['at_x'] - run_['objval']) > 1e-5 or run_['integral'] > 1e-6:
+                _emit(rep, dict(sig='C11:optimum-differs-from-brute-force:%s:milp:weak-relaxation' % run_['iface'], prop='C11',
+                                what='%s reports %g as optimal (status %s; |a.x - b| at the returned x = %g), exhaustive enumeration gives %g'
+                                     % (run_['iface'], run_['objval'], run_.get('solver_status'), run_['at_x'], r['brute']), **detail), props)
     rep.extra['solveriface'] = stats
     for job in jobs[:3]:
         rep.sample(dict(suite='SolverIface', decl=job['decl'], cone=job['cone'], interfaces=job['ifaces']))
